@@ -84,6 +84,30 @@ func c02Gen(rng *rand.Rand, tier string, w *bufio.Writer) {
 		}
 		emit(c02History(rng, id, chron, 2+rng.Intn(5), "hist"))
 	}
+	// a second crash: a first session dies (the chronicler is dropped without Close, or closed), the
+	// file is left with a torn tail (cut), a fresh chronicler loads it — the first recovery — and a
+	// resumed session follows; its crash images (every operation torn, writes since the last fsync
+	// lost) are the second crash.  A Load in the middle of a clean history is the same without the cut.
+	n2 := 6
+	if tier == "thorough" {
+		n2 = 40
+	}
+	for i := 0; i < n2; i++ {
+		chron := c03ChronLine(rng, false)
+		if strings.HasPrefix(chron, "chron cfg") {
+			chron = fmt.Sprintf("chron cfg %d 0.3", c02Pick(rng, 450, 900, 2000))
+		}
+		first := c02History(rng, id, chron, 2+rng.Intn(3), "resumed")
+		if first[len(first)-1] != "close" && rng.Intn(2) == 0 {
+			first = append(first, "close")
+		}
+		if i%3 != 2 {
+			first = append(first, fmt.Sprintf("cut %d", c02Pick(rng, 1, 5, 16, 17, 60, 300)))
+		}
+		first = append(first, chron, "load")
+		second := c02History(rng, id, chron, 2+rng.Intn(3), "x")[3:]
+		emit(append(first, second...))
+	}
 	fmt.Fprintln(w, "case tick real-swamp write tick")
 	for _, k := range []int{1, 2, 5} {
 		fmt.Fprintf(w, "tick %d\n", k)
